@@ -1,7 +1,394 @@
 import Driver.Common
-open Lean Drv
+import NriModel.SyncChunk
+open Lean Drv Nri Nri.SyncChunk
+
+/-!
+Driver for C09. `in` = the generated state (run-length encoded pad sizes), handler kind,
+number of updates, slice slack, the transport limit and the sender's documented minimum of
+objects per message. `obs` = outcome, encoded object sizes, the attempts seen at the
+runtime end, the chunk plan seen at the plugin end, the handler's invocations, the updates
+returned and received, whether the plugin was activated.
+
+agree (trace acceptance, no dependence on the sender's constants or rounding):
+  * the attempts are accepted by `acceptsTrace` (a behaviour of the repaired loop for some
+    policy satisfying `Shrinks min_objs`);
+  * the plan is what the accepted attempts got through, and `accepts` it (`ValidPlan`);
+  * the stub model `stubRun` fed with the observed plan makes the observed handler calls and
+    gives the observed replies;
+  * the additive size oracle `payloadSize` equals the lengths measured on the wire.
+spec (directly on the observation): delivered exactly once, complete, in order, content
+  intact, updates reach the runtime, plugin activated — or failed cleanly (not activated,
+  runtime alive, handler never called with a partial state) and the state was not
+  transmissible in messages of at most `min_objs` objects.
+-/
+
 namespace Drv.C09
-/-- placeholder until the property's driver is written -/
-def judge (_ : Json) : Except String Verdict := .error "C09 driver not implemented"
+
+abbrev bogus : Nat := 4000000000
+
+/-- [[a,b],…] -/
+def getPairs (j : Json) (k : String) : Except String (List (Int × Int)) := do
+  let a ← getArr j k
+  a.mapM fun x => match x with
+    | Json.arr #[p, q] => do
+      let p ← (p.getInt? : Except String Int)
+      let q ← (q.getInt? : Except String Int)
+      pure (p, q)
+    | _ => throw s!"field {k}: not a pair"
+
+/-- runs of [count, value] -/
+def expandCounts (rs : List (Int × Int)) : Array Nat := Id.run do
+  let mut out : Array Nat := #[]
+  for (n, v) in rs do
+    for _ in [0:n.toNat] do
+      out := out.push v.toNat
+  return out
+
+/-- runs of [start, len] of consecutive indices; a negative start is an object the
+    runtime never supplied -/
+def expandRuns (rs : List (Int × Int)) : List Nat := Id.run do
+  let mut out : Array Nat := #[]
+  for (s, n) in rs do
+    for i in [0:n.toNat] do
+      out := out.push (if s < 0 then bogus else s.toNat + i)
+  return out.toList
+
+def getChunk (j : Json) : Except String (Chunk Nat Nat) := do
+  let p ← getPairs j "pods"
+  let c ← getPairs j "ctrs"
+  let m ← getBool j "more"
+  pure ⟨expandRuns p, expandRuns c, m⟩
+
+structure Attempt where
+  chunk : Chunk Nat Nat
+  size : Nat
+  res : String
+  len : Nat
+  rmore : Bool
+  rupdates : Nat
+
+def getAttempt (j : Json) : Except String Attempt := do
+  let c ← getChunk j
+  pure ⟨c, ← getNat j "size", ← getStr j "res", getNatD j "len", getBoolD j "rmore", getNatD j "rupdates"⟩
+
+def Attempt.toEv (a : Attempt) : Ev Nat Nat Nat :=
+  match a.res with
+  | "ok" => .sent a.chunk ⟨List.replicate a.rupdates 0, a.rmore⟩
+  | "oversized" => .rejected a.chunk a.len
+  | _ => .errored a.chunk
+
+def bucket (n : Nat) : String :=
+  if n == 0 then "0" else if n ≤ 8 then "1-8" else if n ≤ 100 then "9-100"
+  else if n ≤ 1000 then "101-1000" else "1001+"
+
+def sizeClass (n : Nat) : String :=
+  if n < 512 then "tiny" else if n < 50000 then "1k" else if n < 600000 then "100k"
+  else if n < 3000000 then "1m" else if n ≤ 4194304 then "near-limit" else "over-limit"
+
+/-- maximum over all windows of `n` consecutive elements of the summed field lengths -/
+def maxWindow (sz : Array Nat) (n : Nat) : Nat := Id.run do
+  if n == 0 || sz.size < n then return 0  -- (fewer than n objects: covered by the smaller windows)
+  let mut pre : Array Nat := #[0]
+  for s in sz do
+    pre := pre.push (pre.back! + fieldLen s)
+  let mut best := 0
+  for i in [0:sz.size - n + 1] do
+    let w := pre[i + n]! - pre[i]!
+    if w > best then best := w
+  return best
+
+/-- every message of at most `m` objects (consecutive pods, consecutive containers) fits
+    under the limit with `env` bytes of envelope -/
+def allSmallFit (ps cs : Array Nat) (m limit env : Nat) : Bool := Id.run do
+  let wp := (List.range (m + 1)).map (maxWindow ps)
+  let wc := (List.range (m + 1)).map (maxWindow cs)
+  let mut ok := true
+  for n in [0:m + 1] do
+    for k in [0:m + 1 - n] do
+      -- windows shorter than the list are dominated by the longest available one
+      let a := (List.range (n + 1)).foldl (fun acc i => max acc (wp.getD i 0)) 0
+      let b := (List.range (k + 1)).foldl (fun acc i => max acc (wc.getD i 0)) 0
+      if a + b + 2 + env > limit then ok := false
+  return ok
+
+/-- kind "pre": plugins launched by `Adaptation.Start` and synchronized by `syncPlugins`. -/
+def judgePre (inp obs : Json) : Except String Verdict := do
+  let limit ← getNat inp "limit"
+  let m ← getNat inp "min_objs"
+  let outcome ← getStr obs "outcome"
+  let panicLine := getStrD obs "panic"
+  let runaway := getBoolD obs "runaway"
+  let ps := expandCounts (← getPairs obs "pod_sizes")
+  let cs := expandCounts (← getPairs obs "ctr_sizes")
+  if outcome == "harness" then throw s!"harness could not run the case: {getStrD obs "detail"}"
+  let nP := ps.size
+  let nC := cs.size
+  let pods := List.range nP
+  let ctrs := List.range nC
+  let wire := payloadSize (fun i => ps.getD i 0) (fun i => cs.getD i 0)
+  let fitsOk := fun (c : Chunk Nat Nat) => decide (wire c ≤ limit)
+  let transmissible := allSmallFit ps cs m limit 64
+  let rtUpd := (← getArr obs "runtime_updates").map fun x => (x.getNat?.toOption.getD bogus)
+  let pin ← getArr inp "plugins"
+  let pobs ← getArr obs "plugins"
+  let normal := outcome == "synced" && !runaway
+  if normal && pin.length != pobs.length then throw "plugin observations do not match the input"
+  -- per plugin: (name, handler, updates, plan, calls, bad, returned, activated)
+  let plugins ← (pin.zip pobs).mapM fun (pi, po) => do
+    let name := s!"{getStrD pi "idx"}-{getStrD pi "name"}"
+    if normal && getStrD po "name" != name then throw s!"plugin {name}: observation is for {getStrD po "name"}"
+    let plan ← (← getArr po "plan").mapM getChunk
+    let callsJ ← getArr po "calls"
+    let calls ← callsJ.mapM fun c => do
+      pure (expandRuns (← getPairs c "pods"), expandRuns (← getPairs c "ctrs"))
+    let bad := callsJ.foldl (fun acc c => acc + getNatD c "bad") 0
+    let returned := (← getArr po "returned").map fun x => (x.getNat?.toOption.getD bogus)
+    pure (name, getStrD pi "handler", getNatD pi "updates", plan, calls, bad, returned, getBoolD po "activated")
+  let fullCall := fun (c : List Nat × List Nat) => c.1 == pods && c.2 == ctrs
+  -- ---------------------------------------------------------------- spec, on the observation
+  let checkPlugin := fun (x : String × String × Nat × List (Chunk Nat Nat) × List (List Nat × List Nat) × Nat × List Nat × Bool) =>
+    let (name, handler, k, plan, calls, bad, returned, activated) := x
+    let complete := match plan.getLast? with | some c => !c.more | none => false
+    if !calls.all fullCall then some ("C09:handler-args", s!"{name}: handler called with {calls.map fun c => (c.1.length, c.2.length)} of {nP}/{nC} objects, or out of order")
+    else if bad != 0 then some ("C09:content", s!"{name}: {bad} delivered object(s) differ from what the runtime supplied")
+    else if calls.length > 1 then some ("C09:handler-calls", s!"{name}: handler called {calls.length} times")
+    else if complete then
+      if handler == "none" then
+        if !calls.isEmpty then some ("C09:handler-calls", s!"{name}: no handler but called")
+        else if !activated then some ("C09:not-activated", s!"{name}: synchronized but not activated") else none
+      else if calls.length != 1 then some ("C09:handler-calls", s!"{name}: last chunk delivered, handler called {calls.length} times")
+      else if handler == "error" then
+        if activated then some ("C09:activated-after-failure", s!"{name}: handler failed the synchronization but the plugin was activated") else none
+      else if returned != ctrs.take k then some ("C09:updates-lost", s!"{name}: returned {returned}")
+      else if !activated then some ("C09:not-activated", s!"{name}: synchronized but not activated") else none
+    else
+      if !calls.isEmpty then some ("C09:handler-calls", s!"{name}: handler called although the last chunk never arrived")
+      else if activated then some ("C09:activated-after-failure", s!"{name}: synchronization incomplete but the plugin was activated")
+      else if transmissible then some ("C09:failed-transmissible:pre", s!"{name}: not synchronized although every message of ≤ {m} objects fits")
+      else none
+  let expectUpd := plugins.foldl (fun acc x =>
+    let (_, handler, _, plan, _, _, returned, _) := x
+    let complete := match plan.getLast? with | some c => !c.more | none => false
+    if complete && handler == "record" then acc ++ returned else acc) ([] : List Nat)
+  let (spec, sig, swhy) : Bool × String × String :=
+    if outcome == "crashed" then
+      (false, if (panicLine.splitOn "slice bounds out of range").length > 1 then "C09:crashed:slice-bounds" else "C09:crashed",
+        s!"the runtime process died in Adaptation.Start: {panicLine}")
+    else if outcome == "timeout" then (false, "C09:timeout", "Adaptation.Start did not return")
+    else if runaway then (false, "C09:runaway:pre", "the sender kept sending to a pre-installed plugin until cut off")
+    else if outcome != "synced" then (false, "C09:start-failed", s!"Adaptation.Start failed: {getStrD obs "detail"}")
+    else match plugins.findSome? checkPlugin with
+      | some (sg, w) => (false, sg, w)
+      | none =>
+        if rtUpd != expectUpd then (false, "C09:updates-lost", s!"runtime received updates {rtUpd}, the synchronized plugins returned {expectUpd}")
+        else (true, "", "")
+  -- ---------------------------------------------------------------- agree, through the model
+  let outcomes : List (String × Outcome Nat Unit) := plugins.map fun x =>
+    let (name, handler, k, plan, _, _, _, _) := x
+    if accepts fitsOk pods ctrs plan then
+      (name, if handler == "error" then .failed (.peer ()) else if handler == "none" then .done [] else .done (ctrs.take k))
+    else (name, .failed .tooLarge)
+  let (mActive, mUpd) := activatePreinstalled outcomes
+  let oActive := (plugins.filter fun x => x.2.2.2.2.2.2.2).map (·.1)
+  let recvOk := plugins.all fun x =>
+    let (_, handler, k, plan, calls, _, _, _) := x
+    let h : Handler Nat Nat Nat Unit :=
+      if handler == "none" then none
+      else if handler == "error" then some (fun _ _ => .error ())
+      else some (fun _ cs => .ok (cs.take k))
+    (stubRun h RState.init plan).1.calls == calls
+  -- a plan that is not complete must at least be a well-formed prefix: all chunks `more`
+  let prefixOk := plugins.all fun x =>
+    let plan := x.2.2.2.1
+    accepts fitsOk pods ctrs plan || plan.all (·.more)
+  let agree := normal && mActive == oActive && mUpd == rtUpd && recvOk && prefixOk
+  let awhy :=
+    if !normal then "the model of the repaired code neither crashes, hangs nor runs away"
+    else if mActive != oActive then s!"activatePreinstalled keeps {mActive}, observed active {oActive}"
+    else if mUpd != rtUpd then s!"activatePreinstalled collects updates {mUpd}, runtime received {rtUpd}"
+    else if !recvOk then "stub model and observed handler calls differ"
+    else if !prefixOk then "a plan is neither valid nor a prefix of `more` chunks"
+    else ""
+  let chunks := plugins.foldl (fun acc x => max acc x.2.2.2.1.length) 0
+  let cover := [s!"outcome:{outcome}", "stream:pre", s!"pre:plugins:{plugins.length}",
+    s!"P:{bucket nP}", s!"C:{bucket nC}", if transmissible then "transmissible" else "not-transmissible",
+    s!"chunks:{if chunks ≤ 1 then s!"{chunks}" else if chunks ≤ 4 then "2-4" else if chunks ≤ 16 then "5-16" else "17+"}"]
+    ++ plugins.map (fun x => s!"pre:handler:{x.2.1}")
+    ++ (if normal then [s!"pre:active:{oActive.length}"] else [])
+    ++ (if normal && agree then ["trace"] else [])
+  pure { agree := agree, spec := spec, why := if !spec then swhy else awhy, cover := cover,
+         nontrivial := true, sig := sig, excluded := false,
+         model := Json.mkObj [("active", Json.arr (mActive.map Json.str).toArray),
+                              ("updates", Json.arr (mUpd.map fun (n : Nat) => (n : Json)).toArray)] }
+
+def judge (j : Json) : Except String Verdict := do
+  let inp ← getObj j "in"
+  let obs ← getObj j "obs"
+  if getStrD inp "kind" == "pre" then return ← judgePre inp obs
+  let handler ← getStr inp "handler"
+  let nUpd ← getNat inp "updates"
+  let limit ← getNat inp "limit"
+  let m ← getNat inp "min_objs"
+  let slack := getNatD inp "slack"
+  let stream := getStrD inp "stream"
+  let outcome ← getStr obs "outcome"
+  let errKind := getStrD obs "err_kind"
+  let panicLine := getStrD obs "panic"
+  let runaway := getBoolD obs "runaway"
+  let activated := getBoolD obs "activated"
+  let alive := getBoolD obs "alive"
+  let ps := expandCounts (← getPairs obs "pod_sizes")
+  let cs := expandCounts (← getPairs obs "ctr_sizes")
+  let nP := (expandCounts (← getPairs inp "pods")).size
+  let nC := (expandCounts (← getPairs inp "ctrs")).size
+  if outcome == "harness" then throw s!"harness could not run the case: {getStrD obs "detail"}"
+  if ps.size != nP || cs.size != nC then throw "sizes do not match the input"
+  let pods := List.range nP
+  let ctrs := List.range nC
+  let attempts ← (← getArr obs "attempts").mapM getAttempt
+  let planJ ← getArr obs "plan"
+  let planC ← planJ.mapM getChunk
+  let planSizes := planJ.map fun c => getNatD c "size"
+  let callsJ ← getArr obs "calls"
+  let calls ← callsJ.mapM fun c => do
+    let p ← getPairs c "pods"
+    let k ← getPairs c "ctrs"
+    pure (expandRuns p, expandRuns k)
+  let bad := callsJ.foldl (fun acc c => acc + getNatD c "bad") 0
+  let returned := (← getArr obs "returned").map fun x => (x.getNat?.toOption.getD bogus)
+  let rtUpd := (← getArr obs "runtime_updates").map fun x => (x.getNat?.toOption.getD bogus)
+  -- size oracle: additive over the encoded object sizes
+  let szP := fun (i : Nat) => ps.getD i 0
+  let szC := fun (i : Nat) => cs.getD i 0
+  let wire := payloadSize szP szC
+  let envelope := 54
+  let transmissible := allSmallFit ps cs m limit (envelope + 10)
+  let maxObj := (ps.toList ++ cs.toList).foldl max 0
+  let rejections := (attempts.filter (·.res == "oversized")).length
+  let evs := attempts.map Attempt.toEv
+  -- ------------------------------------------------------------ spec, on the observation
+  let fullCall := fun (c : List Nat × List Nat) => c.1 == pods && c.2 == ctrs
+  let expectReturned := (ctrs.take nUpd)
+  let (spec, sig, swhy) : Bool × String × String :=
+    if outcome == "crashed" then
+      (false, if (panicLine.splitOn "slice bounds out of range").length > 1 then "C09:crashed:slice-bounds" else "C09:crashed",
+        s!"the runtime process died: {panicLine}")
+    else if outcome == "timeout" then (false, "C09:timeout", "synchronization did not end within the deadline")
+    else if runaway then
+      (false, if planC.any (fun c => c.more && c.count == 0) then "C09:runaway:empty-more" else "C09:runaway",
+        s!"the sender kept sending ({planC.length}+ messages for {nP}+{nC} objects) until cut off")
+    else if !calls.all fullCall then
+      (false, "C09:handler-args", s!"handler called with {calls.map fun c => (c.1.length, c.2.length)} of {nP}/{nC} objects, or out of order")
+    else if bad != 0 then (false, "C09:content", s!"{bad} delivered object(s) differ from what the runtime supplied")
+    else if calls.length > 1 then (false, "C09:handler-calls", s!"handler called {calls.length} times")
+    else if outcome == "synced" then
+      if handler == "none" then
+        if !calls.isEmpty then (false, "C09:handler-calls", "a plugin without handler was called")
+        else if !activated then (false, "C09:not-activated", "synchronized but not activated")
+        else (true, "", "")
+      else if calls.length != 1 then (false, "C09:handler-calls", s!"synchronized but handler called {calls.length} times")
+      else if returned != expectReturned || rtUpd != returned then
+        (false, "C09:updates-lost", s!"handler returned updates for {returned}, runtime received {rtUpd}")
+      else if !activated then (false, "C09:not-activated", "synchronized but not activated")
+      else (true, "", "")
+    else if outcome == "failed" then
+      if activated then (false, "C09:activated-after-failure", "synchronization failed but the plugin was activated")
+      else if !alive then (false, "C09:crashed", "runtime not alive")
+      else if errKind == "handler" && handler == "error" then
+        if calls.length == 1 then (true, "", "") else (false, "C09:handler-calls", "handler error reported but handler not called once")
+      else if transmissible then
+        (false, s!"C09:failed-transmissible:{errKind}",
+          s!"registration failed ({errKind}) although every message of ≤ {m} objects fits under the limit")
+      else if !calls.isEmpty then (false, "C09:handler-calls", "failed although the handler had been called")
+      else (true, "", "")
+    else (false, "C09:unknown-outcome", outcome)
+  -- ------------------------------------------------------------ agree: trace acceptance
+  let fin : End := if outcome == "synced" then .done else .failed
+  let fitsOk := fun (c : Chunk Nat Nat) => decide (wire c ≤ limit)
+  let rejOk := fun (c : Chunk Nat Nat) (len : Nat) =>
+    decide (limit < len) && decide (wire c + 40 ≤ len) && decide (len ≤ wire c + 80)
+  let normal := (outcome == "synced" || outcome == "failed") && !runaway
+  let traceOk := normal && acceptsTrace fitsOk rejOk m fin (SState.init pods ctrs) evs
+  -- what the accepted attempts got through is the plan seen at the plugin end
+  let through := (attempts.filter (·.res == "ok")).map (·.chunk)
+  let lastErr := match attempts.getLast? with
+    | some a => if a.res == "err" then [a.chunk] else []
+    | none => []
+  let planMatches := planC == through || planC == through ++ lastErr
+  let planOk := outcome != "synced" || accepts fitsOk pods ctrs planC
+  -- sizes: oracle = wire, at both ends
+  let sizeOk := attempts.all (fun a => wire a.chunk == a.size) &&
+    (planC.zip planSizes).all (fun (c, s) => wire c == s)
+  -- receiver model on the observed plan
+  let h : Handler Nat Nat Nat Unit :=
+    if handler == "none" then none
+    else if handler == "error" then some (fun _ _ => .error ())
+    else some (fun _ cs => .ok (cs.take nUpd))
+  let (rst, replies) := stubRun h RState.init planC
+  let obsReplies := (attempts.filter (·.res != "oversized")).map fun a =>
+    if a.res == "ok" then some (a.rupdates, a.rmore) else none
+  let mReplies := replies.map fun r => match r with
+    | .ok rp => some (rp.update.length, rp.more)
+    | .error _ => none
+  let recvOk := !normal || (rst.calls == calls && (mReplies == obsReplies || mReplies ++ [none] == obsReplies))
+  -- deterministic model of the PATCHED code (exact arithmetic for float64, envelope of 54
+  -- bytes): measured only, never enforced — the property does not depend on the counts
+  let E : Env Nat Nat Nat Unit (RState Nat Nat) :=
+    { size := fun c => wire c + envelope, limit := limit, policy := policyFixed m, clamp := true,
+      peer := stubRPC h }
+  let det := synchronize E (fuelBound pods ctrs) RState.init pods ctrs
+  let shape := fun (e : Ev Nat Nat Nat) =>
+    ((match e with | .sent .. => 0 | .rejected .. => 1 | .errored .. => 2 : Nat),
+      (evChunk e).pods.length, (evChunk e).ctrs.length, (evChunk e).more)
+  let detSame := normal && det.evs.map shape == evs.map shape
+  let detOutcome := match det.out with
+    | .done _ => "synced"
+    | .failed _ => "failed"
+    | .fault => "fault"
+    | .outOfFuel => "out-of-fuel"
+  let agree := normal && traceOk && planMatches && planOk && sizeOk && recvOk
+  let awhy :=
+    if !normal then "the model of the repaired loop neither crashes, hangs nor runs away"
+    else if !traceOk then "attempts are not a behaviour of the repaired sender (out-of-range or non-prefix slice, empty `more` message, counts not shrinking, wrong `more` flag, or size/limit inconsistent)"
+    else if !planMatches then "messages seen at the plugin end differ from the attempts that got through"
+    else if !planOk then "plan not accepted by ValidPlan"
+    else if !sizeOk then "additive size oracle differs from the measured message length"
+    else if !recvOk then s!"stub model: calls {rst.calls.map fun c => (c.1.length, c.2.length)} replies {mReplies}; observed calls {calls.map fun c => (c.1.length, c.2.length)} replies {obsReplies}"
+    else ""
+  let why := if !spec then swhy else awhy
+  let reshrink := Id.run do
+    let mut seenOk := false
+    let mut r := false
+    for a in attempts do
+      if a.res == "ok" then seenOk := true
+      if a.res == "oversized" && seenOk then r := true
+    return r
+  let minChunk := rejections > 0 && planC.any (fun c => c.more && c.count ≤ m)
+  let chunksB := let n := planC.length
+    if n ≤ 1 then s!"{n}" else if n ≤ 4 then "2-4" else if n ≤ 16 then "5-16" else if n ≤ 64 then "17-64" else "65+"
+  let cover := [s!"outcome:{outcome}", s!"stream:{stream}", s!"handler:{handler}",
+    s!"P:{bucket nP}", s!"C:{bucket nC}", s!"maxobj:{sizeClass maxObj}", s!"chunks:{chunksB}",
+    s!"rejections:{if rejections == 0 then "0" else if rejections == 1 then "1" else if rejections ≤ 4 then "2-4" else "5+"}",
+    if slack == 0 then "slack:0" else "slack:>0",
+    if transmissible then "transmissible" else "not-transmissible"]
+    ++ (if outcome == "failed" then [s!"err:{errKind}"] else [])
+    ++ (if runaway then ["runaway"] else [])
+    ++ (if outcome == "failed" && errKind == "too-large" && maxObj + 64 ≤ limit then ["refused-though-each-object-fits"] else [])
+    ++ (if reshrink then ["reshrink-midway"] else [])
+    ++ (if minChunk then ["min-chunk"] else [])
+    ++ (if nUpd > 0 then ["updates"] else [])
+    ++ (if traceOk then ["trace"] else [])
+    ++ (if normal then [if detSame then "det-model:same-attempts" else "det-model:different-attempts",
+          if detOutcome == outcome then "det-model:same-outcome" else "det-model:different-outcome"] else [])
+  let nontrivial := rejections > 0 || outcome != "synced" || handler != "record" || nUpd > 0
+  pure { agree := agree, spec := spec, why := why, cover := cover, nontrivial := nontrivial,
+         sig := sig, excluded := false,
+         model := Json.mkObj [("trace_accepted", traceOk), ("plan_valid", planOk),
+           ("stub_calls", Json.arr (rst.calls.map fun c => Json.arr #[c.1.length, c.2.length]).toArray),
+           ("transmissible", transmissible), ("det_outcome", detOutcome),
+           ("det_attempts", Json.arr (det.evs.map fun e =>
+              let (k, p, c, mo) := shape e
+              Json.arr #[k, p, c, mo]).toArray)] }
+
 def main : IO UInt32 := runLines judge
 end Drv.C09
